@@ -42,6 +42,34 @@ CLAIMED["C05"] = dict(
   note=STATIC_NOTE,
   technique="str/bytes type-flow with len() hook + must-call analysis with summaries + sibling guard rule")
 
+CLAIMED["C08"] = dict(
+  text="Decides, for every parser root of all registered hashers (identify/verify/needs_update/from_string/genhash/parsehash, dynamic-dispatch helpers, "
+       "PrefixWrapper, libpass inspectors and hashers): no content-dependent assert, no constant index into hash-derived data without a dominating "
+       "length/truthiness guard, no table lookup keyed by hash data outside KeyError handling (taint analysis with path-sensitive guards and callee "
+       "summaries); a str|bytes hash is normalised before any text operation (type flow + PrefixWrapper sibling rule); base64 decode-map lookups map "
+       "KeyError to ValueError; parsed digests are size/charset-validated and verify compares the whole digest. Not decided: that an altered digest "
+       "differs after recomputation.",
+  note=STATIC_NOTE,
+  technique="interprocedural taint analysis (hash string -> exception-raising sinks) + str/bytes type flow + sibling rule")
+CLAIMED["C09"] = dict(
+  text="Decides for all using() definitions: a fresh subclass is created once via super().using(**kwds) and returned on every path; attribute stores target "
+       "only that subclass; stored values pass a _norm_/_clip_/norm_integer/as_bool sanitiser or a dominating raising guard; no data read through the stale "
+       "parent `cls` after the subclass exists except the inherit-default idiom; clamp helpers raise in strict mode and clamp in relaxed mode for both bounds; "
+       "generated rounds are drawn between clipped bounds, the default is re-clipped after min/max/default are stored, generator overrides stay inside the "
+       "window; every stored attribute is read outside using(); PrefixWrapper forwards writes only to a subclass it created. Not decided: numeric behaviour "
+       "over all option combinations.",
+  note=STATIC_NOTE,
+  technique="who-may-write + sanitiser-before-store dataflow + stale-receiver rule + shape conformance of clamp helpers")
+CLAIMED["C19"] = dict(
+  text="Decides the lock-set / publication-order discipline of lazy first use: both self-initialising classes run _lazy_init under a threading lock, re-check "
+       "the pending state inside it, keep a guard read by __getattribute__ blocking until initialisation is complete, and are entered through the defining "
+       "class; table loaders' readers test the global assigned last; backend state is published after the loader installed the implementation, dry runs "
+       "install nothing; class-/module-level state is written only by the audited initialisation functions; registry registration of the identical object is "
+       "idempotent. One recorded finding (F17, _stub_requires_backend raising on a concurrently finished set_backend) is listed in known_findings.json. "
+       "Not decided: interleavings outside these constructs.",
+  note=STATIC_NOTE,
+  technique="lock-set + publish-last ordering over linearised initialiser bodies + who-may-write whitelist")
+
 NOT_APPLICABLE = {p: "check under construction in this session (will be claimed once its rules are built and validated on the clean tree)"
                   for p in ["C%02d" % i for i in range(1, 21)] if p not in CLAIMED}
 NOTES = ("All checks are static: ./check <ID> parses /repo's working tree on every run (81 units), evaluates the property's rules at every site and "
